@@ -32,6 +32,7 @@ func main() {
 	verif := flag.String("verif", "", "verif directory (default: parent of the binary's directory)")
 	dump := flag.String("dump", "", "debug: dump PPA paths of pkg:Func (e.g. cache:(*Target).gnmiUpdate)")
 	noSelf := flag.Bool("noselftest", false, "thorough: skip variant self-validation")
+	writeRef := flag.Bool("write-refsigs", false, "development: write <verif>/refsigs.json (names and signatures of the module's functions and fields on the reference tree) and exit")
 	strictSelf := flag.Bool("selftest-strict", false, "thorough: a variant expectation that is not met makes the run exit 2 (development / regression use)")
 	flag.Parse()
 	if t := os.Getenv("VERIF_TIER"); t != "" && *tier == "" {
@@ -63,6 +64,18 @@ func main() {
 				code = 1
 			}
 			return
+		}
+		if *writeRef {
+			if err := writeRefSigs(P, filepath.Join(*verif, "refsigs.json")); err != nil {
+				fmt.Println(err)
+				return
+			}
+			code = 0
+			return
+		}
+		P.canonicalise(filepath.Join(*verif, "refsigs.json"))
+		for _, n := range canonNotes {
+			fmt.Println("NOTE: " + n)
 		}
 		if *dump == "alias" {
 			debugAlias(P)
